@@ -39,6 +39,9 @@ RULE = ('session: 300 (quick) / 3500 (thorough) histories of 5..60 (quick) / 5..
         'get_one / contains / count / get_all. exhaustive: every call sequence prefix + c1 + c2 (+ c3 thorough) + '
         'observer over 2 URLs (levels 0 and 1), 13 state-changing calls (incl. reopen), 5-6 observers, 3 (quick) / '
         '5 (thorough) prefix states: 2535 (quick) / ~29k (thorough) histories, each on a fresh table object. '
+        'multi: 60 (quick) / 600 (thorough) histories of 6..30 calls interleaved over 2-3 table objects alive in '
+        'one process (memory/disk/generic, bare/wrapped, reopen of one while the others stay open), each table '
+        'against its own model run and dict reference, untouched tables must not change. '
         'bigbatch: one add_many of 1, 499..503, 1000..1003, 1500+ (thorough up to 2506) entries, plain / with '
         'properties (3 strings per entry: 166..168, 333..336) / mixed / with internal duplicates, then count, get_one '
         'at chunk-boundary positions, check_out, a second overlapping batch, count, get_hostnames. '
@@ -314,15 +317,18 @@ class Oracle:
         self.persistent = persistent
         self.ref = {}          # url -> list of 12 fields
         self.step = -1
+        self.cur_op = []
+        self.label = ''
 
     def fail(self, kind, where, detail):
         case = dict(self.case)
         case['failed_at_step'] = self.step
-        self.ctx.fail(kind, where, case, 'step %d %r: %s' % (self.step, self.case['ops'][self.step][:3], detail))
+        self.ctx.fail(kind, where, case, 'step %d %s%r: %s' % (self.step, self.label, self.cur_op[:3], detail))
 
     def observe(self, i, op, result, state):
         """result = (kind, value) of the real call, state = real get_all() after it"""
         self.step = i
+        self.cur_op = op
         k = op[0]
         before = {u: list(f) for u, f in self.ref.items()}
         order_before = list(self.ref)
@@ -930,6 +936,119 @@ def run_case(ctx, case, reply, stream='session'):
     ctx.tag('steps', len(ops))
 
 
+def gen_multi(rng, maxlen=30):
+    """2-3 table objects alive in one process (memory + file, file + file, memory + memory, bare and
+    wrapped), calls interleaved between them, one of them closed and reopened while the others stay
+    open: every table must keep behaving as if it were alone."""
+    n = rng.choice([2, 2, 3])
+    tables = [{'variant': rng.choice(['memory', 'disk', 'disk', 'generic']), 'wrapped': rng.random() < 0.4}
+              for _ in range(n)]
+    pool = rng.sample(PLAIN, rng.randrange(3, 6))
+    ops = []
+    for k in range(n):
+        if rng.random() < 0.7:
+            ops.append([k, ['A', [{'url': u, 'props': None, 'data': None}
+                                  for u in rng.sample(pool, rng.randrange(1, len(pool)))]]])
+    m = rng.randrange(6, maxlen + 1)
+    while len(ops) < m:
+        op = gen_probe(rng, pool)[1] if rng.random() < 0.3 else gen_op(rng, pool)
+        if len(error_kinds(op)) > 1:
+            continue
+        ops.append([rng.randrange(n), op])
+    return {'tables': tables, 'ops': ops}
+
+
+def multi_lines(case):
+    return ['table run %s %s' % ('F' if t['variant'] == 'memory' else 'T',
+                                 ' '.join(enc_op(op) for k, op in case['ops'] if k == i))
+            for i, t in enumerate(case['tables'])]
+
+
+def run_multi(ctx, case, replies, stream='multi'):
+    """Several live tables: each one against ITS OWN model run (its subsequence of the calls) and its own
+    dict reference; after every call the tables that were not called must show what they showed before
+    (the frame property `step_left_preserves_right` / `interleaving_projects` of the model)."""
+    n = len(case['tables'])
+    subs = [[op for k, op in case['ops'] if k == i] for i in range(n)]
+    models = [split_reply(r, len(subs[i])) if r is not None and subs[i] else ([] if r is not None else None)
+              for i, r in enumerate(replies)] if replies is not None else [None] * n
+    reals, oracles, visits = [], [], []
+    changed = False
+    tags = set()
+    try:
+        for i, t in enumerate(case['tables']):
+            reals.append(Real(t['variant'], t['wrapped']))
+        for i, r in enumerate(reals):
+            o = Oracle(ctx, case, r.persistent)
+            o.label = 'table %d ' % i
+            oracles.append(o)
+            visits.append(VisitOracle(o))
+        states = [[] for _ in range(n)]
+        pos = [0] * n
+        for gi, (k, op) in enumerate(case['ops']):
+            out, result = reals[k].apply(op)
+            new_states = []
+            try:
+                for r in reals:
+                    new_states.append(r.state())
+            except Exception as e:
+                ctx.fail('table-unreadable', OPNAME.get(op[0], op[0]), dict(case, failed_at_step=gi),
+                         'get_all() raises %s after step %d' % (exc_name(e), gi))
+                break
+            tags.add('op:' + OPNAME.get(op[0], op[0]) + (':' + result[1] if result[0] == 'exc' else ''))
+            stop = False
+            for j in range(n):
+                if j != k and new_states[j] != states[j]:
+                    ctx.fail('other-table-changed', OPNAME.get(op[0], op[0]), dict(case, failed_at_step=gi),
+                             'step %d: %s on table %d changed what table %d shows: %r -> %r'
+                             % (gi, OPNAME.get(op[0], op[0]), k, j, [f[0] for f in states[j]][:6],
+                                [f[0] for f in new_states[j]][:6]))
+                    ctx.disagree(stream, {'case': case, 'step': gi, 'what': 'frame'}, enc_recs(states[j]),
+                                 enc_recs(new_states[j]))
+                    stop = True
+            if new_states[k] != states[k]:
+                changed = True
+            oracles[k].observe(gi, op, result, new_states[k])
+            visits[k].observe(op, result, reals[k].persistent)
+            if models[k] is not None:
+                m_out, m_state = models[k][pos[k]]
+                m_out = canon_model_out(m_out)
+                if not (op[0] == 'L' and m_out == 'recs:' + m_state and out == 'recs:' + enc_recs(new_states[k])) \
+                        and m_out != out:
+                    ctx.disagree(stream, {'case': case, 'step': gi, 'what': 'output'}, m_out, out)
+                    stop = True
+                elif m_state != enc_recs(new_states[k]):
+                    ctx.disagree(stream, {'case': case, 'step': gi, 'what': 'get_all'}, m_state, enc_recs(new_states[k]))
+                    stop = True
+            pos[k] += 1
+            states = new_states
+            if stop:
+                break
+    finally:
+        for r in reals:
+            r.dispose()
+    tags.add('stream:' + stream)
+    tags.add('tables:%d' % n)
+    ctx.case(('multi', json.dumps(jsonable_ops(case['tables'])), json.dumps(jsonable_ops(case['ops']), sort_keys=True)),
+             nontrivial=changed, tags=sorted(tags))
+    ctx.tag('steps', len(case['ops']))
+
+
+def run_multis(ctx, cases, stream='multi'):
+    if not cases:
+        return
+    lines, idx = [], []
+    for c in cases:
+        ls = multi_lines(c)
+        idx.append((len(lines), len(ls)))
+        lines += ls
+    replies = ctx.model.ask(lines)
+    for rep in replies:
+        if rep in ('bad-arg', 'bad-op', 'bad-engine'):
+            raise Infra('table driver rejected a request: %s' % rep)
+    run_parallel(ctx, [(c, replies[a:a + b], stream) for c, (a, b) in zip(cases, idx)])
+
+
 def jsonable_ops(ops):
     from runner import jsonable
     return jsonable(ops)
@@ -959,7 +1078,10 @@ def _work(job):
     rec = Recorder()
     try:
         for case, rep, stream in job:
-            run_case(rec, case, rep, stream)
+            if 'tables' in case:
+                run_multi(rec, case, rep, stream)
+            else:
+                run_case(rec, case, rep, stream)
     except Infra as e:
         return rec.events, str(e)
     return rec.events, None
@@ -1020,7 +1142,14 @@ def normalise(case):
 
 
 def replay(ctx, case, kind=None, where=None):
-    case = normalise(case['case'] if 'case' in case and 'ops' not in case else case)
+    case = case['case'] if 'case' in case and 'ops' not in case else case
+    if 'tables' in case:
+        case = dict(case)
+        case.pop('failed_at_step', None)
+        case['ops'] = [[k, list(op)] for k, op in case['ops']]
+        run_multis(ctx, [case])
+        return
+    case = normalise(case)
     case.pop('failed_at_step', None)
     run_cases(ctx, [case])
 
@@ -1039,6 +1168,10 @@ def run(ctx):
     ctx.sample({'stream': 'session', 'variant': cases[0]['variant'], 'wrapped': cases[0]['wrapped'],
                 'ops': cases[0]['ops'][:6]})
     run_cases(ctx, cases, spec_share=0.2)
+    mrng = ctx.subrng('multi')
+    multis = [gen_multi(mrng) for _ in range(ctx.scale(60, 600))]
+    ctx.note('multi_table_histories', len(multis))
+    run_multis(ctx, multis)
     brng = ctx.subrng('big')
     big = [gen_big(brng, n, st) for n, st in (BIG_SIZES_QUICK if ctx.tier == 'quick' else BIG_SIZES_THOROUGH)]
     ctx.note('large_batches', len(big))
@@ -1053,6 +1186,7 @@ def search(ctx):
     rng = ctx.subrng('search')
     cases = [gen_session(rng, 60) for _ in range(ctx.scale(15, 30))]
     run_parallel(ctx, [(c, None, 'search') for c in cases])
+    run_parallel(ctx, [(gen_multi(rng), None, 'search') for _ in range(ctx.scale(10, 20))])
     if not ctx.failures:
         run_parallel(ctx, [(c, None, 'search') for c in exhaustive_cases(False)])
 
